@@ -45,10 +45,10 @@ Print Assumptions C05_canonical_preserves_cr_lf_tab.
    binary-flagged elements, raw CR in non-canonical modes. *)
 Theorem C05_read_enc_partial : forall l g indent keep_ws nm attrs ch out,
   g <> Indent -> lang_ok l = true ->
-  node_ok l (opts_of_params g indent keep_ws) None None (Elt nm attrs ch) = true ->
+  node_ok l (opts_of_params g indent keep_ws) proot None (Elt nm attrs ch) = true ->
   enc_xml l g indent keep_ws [Elt nm attrs ch] = XOk out ->
   exists items,
-    info_node l (opts_of_params g indent keep_ws) None None (Elt nm attrs ch) = Some items /\
+    info_node l (opts_of_params g indent keep_ws) proot None (Elt nm attrs ch) = Some items /\
     forall fuel, (node_fuel (Elt nm attrs ch) + 2 <= fuel)%nat -> read_xml fuel out = ROk (doc_of l items).
 Proof. exact read_enc_compact_canonical. Qed.
 Print Assumptions C05_read_enc_partial.
@@ -106,8 +106,8 @@ Print Assumptions C05_witness_language.
    equality modulo blank text for mixed content is corresponded by the check (pyexpat), not proved. *)
 Theorem C07_xml_compact_canonical_partial : forall l i1 i2 nm attrs ch out1 out2,
   lang_ok l = true -> plain_attrs (Elt nm attrs ch) = true ->
-  node_ok l (opts_of_params Compact i1 true) None None (Elt nm attrs ch) = true ->
-  node_ok l (opts_of_params Canonical i2 true) None None (Elt nm attrs ch) = true ->
+  node_ok l (opts_of_params Compact i1 true) proot None (Elt nm attrs ch) = true ->
+  node_ok l (opts_of_params Canonical i2 true) proot None (Elt nm attrs ch) = true ->
   enc_xml l Compact i1 true [Elt nm attrs ch] = XOk out1 ->
   enc_xml l Canonical i2 true [Elt nm attrs ch] = XOk out2 ->
   forall fuel, (node_fuel (Elt nm attrs ch) + 2 <= fuel)%nat ->
@@ -118,8 +118,8 @@ Print Assumptions C07_xml_compact_canonical_partial.
 (* --- the hypotheses are satisfiable --------------------------------------------------------------------- *)
 
 Example C05_hypotheses_satisfiable :
-  node_ok syncml11 (opts_of_params Compact 0 true) None None ok_tree = true /\
-  node_ok syncml11 (opts_of_params Canonical 0 true) None None ok_tree = true /\
+  node_ok syncml11 (opts_of_params Compact 0 true) proot None ok_tree = true /\
+  node_ok syncml11 (opts_of_params Canonical 0 true) proot None ok_tree = true /\
   plain_attrs ok_tree = true.
 Proof. exact ok_tree_hypotheses. Qed.
 
